@@ -14,8 +14,8 @@ import (
 // no *schema.Schema (all stages but "schemas"); base names may repeat across schemas.
 type tbl struct{ name, id int }
 
-func qbase(q int) int   { return q % 100 }
-func qschema(q int) int { return q / 100 }
+func qbase(q int) int    { return q % 100 }
+func qschema(q int) int  { return q / 100 }
 func qname(s, n int) int { return 100*s + n }
 
 // schg: a schema-level change in front of the table changes ('S' AddSchema, 'T' DropSchema, 'U' ModifySchema).
@@ -70,6 +70,7 @@ func (s *scenario) hasObjects() bool {
 	}
 	return false
 }
+
 // objMode: stage "objects" -- change sets with enum objects, tied to the extended model (SortObjModel.v)
 var objMode bool
 
